@@ -72,12 +72,14 @@ EXPECT_PROBES = ("refused_logged", "approved_by_callback", "approver_raised", "a
                  "rollback_restored", "rollback_refused", "child_mutated_at_birth", "op_on_child",
                  "random_mutation_path", "express_conditional_named", "express_silenced_hidden",
                  "readd_refused", "readd_overwrite", "grandchild", "child_op_parent_checked",
-                 "expression_inherited_checked", "inherited_level_differs_from_gene_default")
+                 "expression_inherited_checked", "inherited_level_differs_from_gene_default",
+                 "context_names_gene_with_falsy_value", "conditional_named_with_falsy_value")
 
 NAMES = ["a", "b", "c", "d"]
 TYPES = ["structural", "regulatory", "housekeeping", "conditional", "dormant"]
 VALUES = [0, 1, 7, -3, 2.5, 10.0, True, False, "x", "gpt-4", None, [1, 2]]
 DRAWS = [0.0, 0.25, 0.49, 0.5, 0.75, 0.999]
+CTX_VALUES = [True, True, 1, "on", False, 0, None, "", [], {}, 0.0]
 MAX_LINEAGE = 5
 
 
@@ -143,7 +145,8 @@ def gen(rng, tier, i):
                     hot.append(nm)
             ops.append(["replicate", g, muts, rng.random() < 0.7])
         elif o == "express":
-            ctx = None if rng.random() < 0.3 else sorted(rng.sample(NAMES, rng.randint(0, 3)))
+            # a context NAMES a gene; the value it carries (truthy or falsy) is irrelevant to the statement
+            ctx = None if rng.random() < 0.3 else [[nm, rng.choice(CTX_VALUES)] for nm in sorted(rng.sample(NAMES, rng.randint(0, 3)))]
             ops.append(["express", g, ctx])
         else:
             ops.append(["allow", g, rng.random() < 0.5])
@@ -174,6 +177,11 @@ def simplify(plan):
             if op[1] > 1:
                 ops = [list(o) for o in plan["ops"]]
                 ops[j][1] = 1
+                yield {**plan, "ops": ops}
+        if op[0] == "express" and op[2]:
+            for m in range(len(op[2])):
+                ops = [list(o) for o in plan["ops"]]
+                ops[j] = ["express", op[1], op[2][:m] + op[2][m + 1:]]
                 yield {**plan, "ops": ops}
         if op[0] == "replicate" and op[2]:
             for m in range(len(op[2])):
@@ -330,7 +338,7 @@ def _run(plan, k, fake):
         elif name == "replicate":
             out = call(G.replicate, {a: v for a, v in op[2]}, op[3])
         elif name == "express":
-            out = call(G.express, None if op[2] is None else {c: True for c in op[2]})
+            out = call(G.express, None if op[2] is None else _ctx(op[2]))
         elif name == "allow":
             G.allow_mutations = bool(op[2])
             m.allow = bool(op[2])
@@ -512,7 +520,9 @@ def _run(plan, k, fake):
             second_look += 1
             if not same_values or d_log != 0:
                 k.violation("immutable", "value_changed", "express:read_only")
-            ctx = set(op[2] or [])
+            ctx = set(_ctx(op[2] or []))
+            if any(not v for v in _ctx(op[2] or []).values()):
+                k.probe("context_names_gene_with_falsy_value")
             want = {}
             for nm, (cv, gt) in b["genes"].items():
                 if b["expr"].get(nm) == 0:
@@ -524,6 +534,8 @@ def _run(plan, k, fake):
                     if nm not in ctx:
                         continue
                     k.probe("express_conditional_named")
+                    if not _ctx(op[2])[nm]:
+                        k.probe("conditional_named_with_falsy_value")
                 want[nm] = cv
             got = {str(x): canon(v) for x, v in ret.items()} if isinstance(ret, dict) else None
             if got != want:
@@ -625,6 +637,17 @@ def _run(plan, k, fake):
 
     if attempts >= 1 and (second_look >= 1 or len(lineage) > 1):
         k.nontrivial = True
+
+
+def _ctx(entries):
+    """express() context from the plan: entries are names (value True) or [name, value] pairs."""
+    out = {}
+    for e in entries:
+        if isinstance(e, list):
+            out[e[0]] = e[1]
+        else:
+            out[e] = True
+    return out
 
 
 def _default_level(cfg, lineage, nm, b):
